@@ -62,7 +62,6 @@ func VerifC15Step(h *verifrt.H) {
 		} else {
 			h.Assert(c15same(g.waitForUnlock, pre), "release-foreign-id-no-effect")
 		}
-		h.Known("C15-id-counter-reset", "guard-id", n == 1 && rid == pre[0])
 	}
 	// ids are never reused: the counter only grows
 	h.Assert(g.largestGuardID >= L, "guard-id-monotonic")
@@ -83,7 +82,6 @@ func VerifC15Sched(h *verifrt.H) {
 		h.Go("op", func() {
 			id := g.StartTreasureGuard(true)
 			holders++
-			h.Known("C15-id-counter-reset", "exclusive", true)
 			h.Assert(holders == 1, "exclusive-holder")
 			h.ClearKnown()
 			entered++
